@@ -14,7 +14,7 @@ import yatiml
 from vlib.common import HarnessError, pick
 
 # strings that look like something else, YAML syntax, odd characters
-STRS = ['abc', '', '1e5', '1.2.3', 'yes', 'no', 'true', 'True', 'null', '~',
+STRS = ['abc', '', '1e5', '\u00e9', '\U0001f642', '1.2.3', 'yes', 'no', 'true', 'True', 'null', '~',
         '2001-01-01', ': ', '- x', '#c', 'a: b', "it's", '"q"', ' lead',
         'trail ', 'multi\nline', '0x1F', '1_000', '.inf', '.nan', '<<', '=',
         '|', '>', '%', '@', '`', '!tag', '&a', '*a', '? ', '[x]', '{x}',
